@@ -441,7 +441,7 @@ func handleDoc(name string) *hdoc {
 		"fromreader-page1": fromReader(path, nil, 1), "fromreader-page1@afterpage2": fromReader(path, []int{2}, 1),
 		"fromreader-page2": fromReader(path, nil, 2), "fromreader-page2@afterpage1": fromReader(path, []int{1}, 2),
 		"fromreader-page1@afterall": fromReader(path, []int{0}, 1),
-		"fromreader-all": fromReader(path, nil, 0), "fromreader-all@2": fromReader(path, []int{0}, 0), "fromreader-all@afterpage2": fromReader(path, []int{2}, 0),
+		"fromreader-all":            fromReader(path, nil, 0), "fromreader-all@2": fromReader(path, []int{0}, 0), "fromreader-all@afterpage2": fromReader(path, []int{2}, 0),
 		"reader-getpage0": nth(1, func(rd *reader.Reader) string { return page(rd, 0) }), "reader-getpage0@2": nth(2, func(rd *reader.Reader) string { return page(rd, 0) }),
 		"reader-getpage1": nth(1, func(rd *reader.Reader) string { return page(rd, 1) }), "reader-getpage1@2": nth(2, func(rd *reader.Reader) string { return page(rd, 1) }),
 		"reader-pagecount": nth(1, count), "reader-pagecount@2": nth(2, count),
